@@ -47,8 +47,9 @@ func main() {
 				}
 			}
 			fmt.Fprintln(out)
-		case "cpm":
-			// cpm id sp nmem (addr val)* ncheck (addr)*
+		case "cpm", "cpm2":
+			// cpm id sp nmem (addr val)* ncheck (addr)*   (cpm2: the same machine and CPU run the program a second time
+			// after the first run ended: PC and SP are set again, nothing else is touched)
 			id := f[1]
 			n := func(i int) int { v, _ := strconv.Atoi(f[i]); return v }
 			mem, io := tinycpm.New()
@@ -70,6 +71,13 @@ func main() {
 			ctx, cancel := context.WithTimeout(context.Background(), 3*time.Second)
 			err := cpu.Run(ctx)
 			cancel()
+			if f[0] == "cpm2" && err == nil {
+				cpu.PC = tinycpm.Start
+				cpu.SP = uint16(sp)
+				ctx2, cancel2 := context.WithTimeout(context.Background(), 3*time.Second)
+				err = cpu.Run(ctx2)
+				cancel2()
+			}
 			code := 0
 			if err == z80.ErrBreakPoint {
 				code = 1
